@@ -75,6 +75,11 @@ def post(ctx):
     if need - copied:
         raise TieBroken("readonly-reader-coverage", "types never copied FROM under a read-only root by the allmsgs sweep: %s" % sorted(need - copied))
     ctx.cov["stats"]["coverage"]["types_copied_from_under_read_only_root"] = len(need & copied)
+    # copies were compared by marshalled bytes, and sources carried values planted directly in the protobuf struct
+    for k in ("copies_compared_by_bytes", "structs_poked"):
+        if st.get(k, 0) <= 0:
+            raise TieBroken("extreme-value-coverage", "allmsgs harnesses report no %s" % k)
+        ctx.cov["stats"]["coverage"][k] = st[k]
     ctx.cov["stats"].setdefault("coverage", {}).update({"generated_slices_run": len(got & want), "generated_slices_listed": len(want),
                                                         "primitive_slices_run": len(gotp & wantp), "primitive_slices_listed": len(wantp)})
 
@@ -146,7 +151,10 @@ SPEC = Spec(
          "pcommon.TraceState and the four payload types: random fill through every public mutator, CopyTo into an arbitrarily pre-filled "
          "destination (equal, source unchanged, independence both ways), MoveTo (destination = source, source = New(), independence both "
          "ways), and for payloads an EXHAUSTIVE read-only sweep: every mutator at every position reachable through the accessors must panic, "
-         "the dump must not change, all readers keep working. "
+         "the dump must not change, all readers keep working. One scalar draw in three is an extreme of its kind (min / max of the width, "
+         "MaxInt64 and MaxInt64+1 as unsigned, NaN, +-Inf, -0.0, empty / very long strings) and one struct in three gets such values planted "
+         "DIRECTLY in the protobuf struct behind the wrapper (what the wire can deliver and no setter produces); copies and moves are compared "
+         "by every getter AND by the marshalled bytes of the protobuf struct. "
          "prim (exact differential + Lean oracle): random programs over 2-4 pcommon.UInt64Slice (Append, SetAt, EnsureCapacity, FromRaw, "
          "CopyTo, MoveTo, read-only); non-trivial = a copy into a destination with spare capacity. "
          "tree (plain-Go reference model, no Lean model): 5-45 random public ops at random positions of 2-3 randomly filled plog.Logs "
